@@ -46,6 +46,36 @@ var efTemplates = []efTemplate{
           - lb_endpoints:
             - endpoint: {address: {socket_address: {address: 127.0.0.1, port_value: 9999}}}
 `},
+	// the same cluster for the inbound and the outbound side of a sidecar (two patches, as users write it when filters of
+	// both directions call out to it): istio de-duplicates the inserted clusters by name (normalizeClusters)
+	{Name: "cluster-add-inbound-and-outbound", Contexts: []string{"SIDECAR_OUTBOUND"}, Patch: `
+  - applyTo: CLUSTER
+    match: {context: SIDECAR_OUTBOUND}
+    patch:
+      operation: ADD
+      value:
+        name: ef-cluster-b-%[1]d
+        type: STATIC
+        connect_timeout: 1s
+        load_assignment:
+          cluster_name: ef-cluster-b-%[1]d
+          endpoints:
+          - lb_endpoints:
+            - endpoint: {address: {socket_address: {address: 127.0.0.1, port_value: 9998}}}
+  - applyTo: CLUSTER
+    match: {context: SIDECAR_INBOUND}
+    patch:
+      operation: ADD
+      value:
+        name: ef-cluster-b-%[1]d
+        type: STATIC
+        connect_timeout: 1s
+        load_assignment:
+          cluster_name: ef-cluster-b-%[1]d
+          endpoints:
+          - lb_endpoints:
+            - endpoint: {address: {socket_address: {address: 127.0.0.1, port_value: 9998}}}
+`},
 	{Name: "cluster-merge-service", Contexts: []string{"ANY", "SIDECAR_OUTBOUND", "GATEWAY"}, Patch: `
   - applyTo: CLUSTER
     match: {context: %[2]s, cluster: {service: "%[3]s", portNumber: %[4]d}}
